@@ -285,7 +285,9 @@ class Run:
             for k, v in (res.get("inconclusive") or {}).items():
                 inconcl[k] = inconcl.get(k, 0) + v
             for k, v in (res.get("extra") or {}).items():
-                if isinstance(v, (int, float)) and not isinstance(v, bool):
+                if isinstance(v, bool):
+                    extra[k] = extra.get(k, True) and v  # AND-merge: one incomplete shard makes the whole false
+                elif isinstance(v, (int, float)):
                     extra[k] = extra.get(k, 0) + v
                 else:
                     extra.setdefault(k, v)
